@@ -81,6 +81,10 @@ def bind_args(call: ast.Call, callee: Func, skip_self: bool = False) -> dict[str
     for k in call.keywords:
         if k.arg:
             out[k.arg] = k.value
+        elif isinstance(k.value, ast.Dict) and k.value.keys and all(isinstance(q, ast.Constant) and isinstance(q.value, str) for q in k.value.keys):
+            # f(**{'a': x, 'b': y})  (a table known entry by entry)  is  f(a=x, b=y)
+            for q, v in zip(k.value.keys, k.value.values):
+                out[q.value] = v
     return out
 
 
@@ -762,6 +766,27 @@ class _Beta(ast.NodeTransformer):
             if a.vararg or a.kwarg or a.kwonlyargs or a.defaults or a.posonlyargs or node.keywords or len(a.args) != len(node.args) or any(isinstance(x, ast.Starred) for x in node.args):
                 return node
             return _Subst({p.arg: v for p, v in zip(a.args, node.args)}).visit(copy.deepcopy(fv.node.body))
+        # a helper of the module that the confirmed tree did not have and that is one returned expression over its parameters
+        # (def _score_constant(a, b, args): return 0.0) is applied like a lambda
+        if isinstance(fv.node, ast.Name) and fv.node.id in self.pe.m.funcs:
+            hf = self.pe.m.funcs[fv.node.id]
+            base = getattr(self.pe.m.repo, 'baseline', None) or {}
+            if fv.node.id not in base.get(self.pe.m.name, set()):
+                body = [b for b in hf.node.body if not (isinstance(b, ast.Expr) and isinstance(b.value, ast.Constant))]
+                a = hf.node.args
+                if len(body) == 1 and isinstance(body[0], ast.Return) and body[0].value is not None and not (a.vararg or a.kwarg or a.kwonlyargs or a.posonlyargs) \
+                        and not any(isinstance(x, ast.Starred) for x in node.args):
+                    names = [p.arg for p in a.args]
+                    bound = dict(zip(names, node.args))
+                    for k in node.keywords:
+                        if k.arg in names and k.arg not in bound:
+                            bound[k.arg] = k.value
+                    dflt = dict(zip(names[len(names) - len(a.defaults):], a.defaults))
+                    for n_ in names:
+                        if n_ not in bound and n_ in dflt:
+                            bound[n_] = dflt[n_]
+                    if set(bound) == set(names):
+                        return self.visit(_Subst({k: copy.deepcopy(v) for k, v in bound.items()}).visit(copy.deepcopy(body[0].value)))
         node.func = copy.deepcopy(fv.node)
         if isinstance(node.func, (ast.Call, ast.Lambda)) and not getattr(node, '_beta_again', False):
             node._beta_again = True
@@ -847,6 +872,36 @@ class PathEval:
                 if k in base.table:
                     return base[k]
                 return self.const(e.args[1]) if len(e.args) == 2 else None
+        # next((v for k, v in TABLE.items() if <test of k>), default): the first entry of a known table whose (decidable) test holds
+        if isinstance(e, ast.Call) and isinstance(e.func, ast.Name) and e.func.id == 'next' and 1 <= len(e.args) <= 2 and not e.keywords and isinstance(e.args[0], ast.GeneratorExp) \
+                and len(e.args[0].generators) == 1:
+            g = e.args[0].generators[0]
+            it = g.iter
+            items = None
+            if isinstance(it, ast.Call) and isinstance(it.func, ast.Attribute) and it.func.attr == 'items' and not it.args:
+                base = self.const(it.func.value)
+                if isinstance(base, _Table) and isinstance(g.target, ast.Tuple) and len(g.target.elts) == 2 and all(isinstance(x, ast.Name) for x in g.target.elts):
+                    items = [({g.target.elts[0].id: ast.Constant(k), g.target.elts[1].id: v}) for k, v in base.table.items()]
+            if items is not None:
+                for binding in items:
+                    ok = True
+                    for cond in g.ifs:
+                        c = _Subst({k_: copy.deepcopy(v_) for k_, v_ in binding.items()}).visit(copy.deepcopy(cond))
+                        saved_other, saved_und = self.other, getattr(self, '_undecided', None)
+                        self.other = None
+                        try:
+                            d = self.truth(c)
+                        finally:
+                            self.other, self._undecided = saved_other, saved_und
+                        if d is None:
+                            raise KeyError(ast.unparse(e))
+                        ok = ok and d
+                    if ok:
+                        elt = _Subst({k_: copy.deepcopy(v_) for k_, v_ in binding.items()}).visit(copy.deepcopy(e.args[0].elt))
+                        return self.const(elt)
+                if len(e.args) == 2:
+                    return self.const(e.args[1])
+                raise KeyError(ast.unparse(e))
         if isinstance(e, ast.Call) and isinstance(e.func, ast.Attribute) and not e.keywords:
             base = self.const(e.func.value)
             args = [self.const(a) for a in e.args]
@@ -1210,6 +1265,8 @@ class PathEval:
                     self.res.ended = None
                     continue
                 return 'end'
+        # every statement of every round was evaluated on its own (with its own invalidations): the loop as a whole invalidates nothing more
+        self._summarised = True
         return None
 
     def _fold_loop(self, s: ast.For) -> bool:
@@ -1737,6 +1794,49 @@ class PathEval:
         return v is not None and not isinstance(v, (ast.Name, ast.Attribute, ast.Subscript))
 
     def _stmt(self, s):
+        # TABLE[<constant key>] = value  on a local table that is still known entry by entry: the table with that entry set
+        if isinstance(s, ast.Assign) and len(s.targets) == 1 and isinstance(s.targets[0], ast.Subscript) and isinstance(s.targets[0].value, ast.Name):
+            d_ = s.targets[0].value.id
+            cur = self.env.get(d_)
+            if isinstance(cur, ast.Dict) and all(isinstance(k, ast.Constant) for k in cur.keys) and \
+                    not any(nm == d_ and sq > getattr(cur, '_seq', -1) for sq, nm in getattr(self, '_mut_log', [])):
+                try:
+                    kq = self.subst(s.targets[0].slice)
+                except Exception:
+                    kq = None
+                if isinstance(kq, ast.Constant):
+                    new = ast.Dict(keys=[copy.deepcopy(k) for k in cur.keys if k.value != kq.value] + [kq], values=[v for k, v in zip(cur.keys, cur.values) if k.value != kq.value] + [self.subst(s.value)])
+                    ast.copy_location(new, cur)
+                    new._seq = self.seq
+                    self.env[d_] = new
+                    return None
+        # TABLE['a'], TABLE['b'] = E   and   TABLE.update(a=x, b=y)   on such a table: the same, entry by entry
+        parts = None
+        if isinstance(s, ast.Assign) and len(s.targets) == 1 and isinstance(s.targets[0], ast.Tuple) and s.targets[0].elts and \
+                all(isinstance(t, ast.Subscript) and isinstance(t.value, ast.Name) and isinstance(t.slice, ast.Constant) for t in s.targets[0].elts) and \
+                len({t.value.id for t in s.targets[0].elts}) == 1 and not isinstance(s.value, (ast.Tuple, ast.List)):
+            d_ = s.targets[0].elts[0].value.id
+            parts = [(t.slice, ast.Subscript(value=s.value, slice=ast.Constant(i), ctx=ast.Load())) for i, t in enumerate(s.targets[0].elts)]
+        elif isinstance(s, ast.Expr) and isinstance(s.value, ast.Call) and isinstance(s.value.func, ast.Attribute) and s.value.func.attr == 'update' and \
+                isinstance(s.value.func.value, ast.Name) and not s.value.args and s.value.keywords and all(k.arg for k in s.value.keywords):
+            d_ = s.value.func.value.id
+            parts = [(ast.Constant(k.arg), k.value) for k in s.value.keywords]
+        if parts is not None:
+            cur = self.env.get(d_)
+            if isinstance(cur, ast.Dict) and all(isinstance(k, ast.Constant) for k in cur.keys) and \
+                    not any(nm == d_ and sq > getattr(cur, '_seq', -1) for sq, nm in getattr(self, '_mut_log', [])):
+                try:
+                    vals = [(kq, self.subst(ast.fix_missing_locations(ast.copy_location(v, s)))) for kq, v in parts]
+                except Exception:
+                    vals = None
+                if vals is not None:
+                    names = {kq.value for kq, _ in vals}
+                    new = ast.Dict(keys=[copy.deepcopy(k) for k in cur.keys if k.value not in names] + [kq for kq, _ in vals],
+                                   values=[v for k, v in zip(cur.keys, cur.values) if k.value not in names] + [v for _, v in vals])
+                    ast.copy_location(new, cur)
+                    new._seq = self.seq
+                    self.env[d_] = new
+                    return None
         """'end' when the path ended at s"""
         self._summarised = False
         self._fissioned = {}
